@@ -121,6 +121,8 @@ static MachineConfig g_machine;
 static int icv_nthreads_var = 4;
 static bool icv_dyn = false;
 static int icv_thread_limit = 64;
+static int icv_run_sched_kind = 0; // run-sched-var: 0 = not set (implementation defined: dynamic,1 is used), 1 static, 2 dynamic, 3 guided, 4 auto
+static int icv_run_sched_chunk = 0;
 
 static OpSim g_cfg;
 static OpStats g_stats;
@@ -1207,6 +1209,8 @@ void set_machine(const MachineConfig &m)
     icv_nthreads_var = m.nthreads_var;
     icv_thread_limit = m.thread_limit;
     icv_dyn = m.dyn;
+    icv_run_sched_kind = 0;
+    icv_run_sched_chunk = 0;
 }
 
 void host_set_icv(int nthreads, int dyn, int limit)
@@ -1219,12 +1223,14 @@ void host_set_icv(int nthreads, int dyn, int limit)
         icv_thread_limit = limit;
 }
 int icv_nthreads() { return icv_nthreads_var; }
-IcvState icv_save() { return IcvState{icv_nthreads_var, icv_thread_limit, icv_dyn}; }
+IcvState icv_save() { return IcvState{icv_nthreads_var, icv_thread_limit, icv_dyn, icv_run_sched_kind, icv_run_sched_chunk}; }
 void icv_restore(const IcvState &s)
 {
     icv_nthreads_var = s.nthreads_var;
     icv_thread_limit = s.thread_limit;
     icv_dyn = s.dyn;
+    icv_run_sched_kind = s.run_sched_kind;
+    icv_run_sched_chunk = s.run_sched_chunk;
 }
 
 void begin_op(const OpSim &cfg)
@@ -1337,6 +1343,18 @@ extern "C"
     void omp_set_max_active_levels(int) {}
     void omp_set_nested(int) {}
     int omp_get_nested(void) { return 0; }
+    void omp_set_schedule(int kind, int chunk)
+    {
+        icv_run_sched_kind = kind & 0x7fffffff; // the monotonic modifier bit is irrelevant here
+        icv_run_sched_chunk = chunk;
+        if (g_op_active)
+            g_stats.icv_sets++;
+    }
+    void omp_get_schedule(int *kind, int *chunk)
+    {
+        *kind = icv_run_sched_kind ? icv_run_sched_kind : 2;
+        *chunk = icv_run_sched_kind ? icv_run_sched_chunk : 1;
+    }
     double omp_get_wtime(void) { return (double)g_steps_total * 1e-9; } // logical time: the code under test reads no clock
     double omp_get_wtick(void) { return 1e-9; }
 
@@ -1630,6 +1648,8 @@ static bool ws_next(unsigned long long *s, unsigned long long *e)
         unsigned long long total_iters;
         // recompute from the original bounds kept in static_pos bookkeeping: next never moves for static
         total_iters = rem;
+        if (w.chunk == 0)
+            w.chunk = std::max<unsigned long long>(1, (total_iters + (unsigned long long)T - 1) / (unsigned long long)T);
         unsigned long long nchunks = (total_iters + w.chunk - 1) / w.chunk;
         unsigned long long k = w.static_pos[me] * (unsigned long long)T + (unsigned long long)me;
         if (k >= nchunks)
@@ -1731,7 +1751,7 @@ static void parallel_loop(void (*fn)(void *), void *data, unsigned num_threads, 
     w.next = (unsigned long long)start + OFF;
     w.end = (unsigned long long)end + OFF;
     w.incr = (unsigned long long)(up ? incr : -incr);
-    w.chunk = chunk > 0 ? (unsigned long long)chunk : 1;
+    w.chunk = chunk > 0 ? (unsigned long long)chunk : (kind == 0 ? 0 : 1); // static without a chunk: one block per member, sized when the team is known
     g_ws.clear();
     g_ws.push_back(w);
     g_ws_preinit = true;
@@ -1760,19 +1780,22 @@ extern "C"
     LOOP_FAMILY(guided, 2)
     LOOP_FAMILY(nonmonotonic_dynamic, 1)
     LOOP_FAMILY(nonmonotonic_guided, 2)
+    // schedule(runtime): run-sched-var as set by omp_set_schedule; when it was never set the choice is implementation
+    // defined and dynamic,1 is used (the most adversarial legal one)
+    static inline int rt_kind() { return icv_run_sched_kind == 1 || icv_run_sched_kind == 4 ? 0 : icv_run_sched_kind == 3 ? 2 : 1; }
+    static inline long rt_chunk() { return icv_run_sched_kind == 0 ? 1 : (icv_run_sched_chunk > 0 ? icv_run_sched_chunk : (rt_kind() == 0 ? 0 : 1)); }
 #define RUNTIME_FAMILY(name)                                                                                                                          \
-    bool GOMP_loop_##name##_start(long start, long end, long incr, long *is, long *ie) { return ws_start_long(1, start, end, incr, 1, is, ie); }      \
+    bool GOMP_loop_##name##_start(long start, long end, long incr, long *is, long *ie) { return ws_start_long(rt_kind(), start, end, incr, rt_chunk(), is, ie); } \
     bool GOMP_loop_##name##_next(long *is, long *ie) { return ws_next_long(is, ie); }                                                                 \
     bool GOMP_loop_ull_##name##_start(bool up, unsigned long long start, unsigned long long end, unsigned long long incr, unsigned long long *is, unsigned long long *ie) \
     {                                                                                                                                                 \
-        return ws_start_ull(1, up, start, end, incr, 1, is, ie);                                                                                      \
+        return ws_start_ull(rt_kind(), up, start, end, incr, (unsigned long long)rt_chunk(), is, ie);                                                 \
     }                                                                                                                                                 \
     bool GOMP_loop_ull_##name##_next(unsigned long long *is, unsigned long long *ie) { return ws_next(is, ie); }                                      \
     void GOMP_parallel_loop_##name(void (*fn)(void *), void *data, unsigned nt, long start, long end, long incr, unsigned flags)                      \
     {                                                                                                                                                 \
-        parallel_loop(fn, data, nt, 1, start, end, incr, 1, flags);                                                                                   \
+        parallel_loop(fn, data, nt, rt_kind(), start, end, incr, rt_chunk(), flags);                                                                  \
     }
-    // schedule(runtime): OMP_SCHEDULE is not set in the simulated machine -> implementation defined; dynamic,1 is the most adversarial legal choice
     RUNTIME_FAMILY(runtime)
     RUNTIME_FAMILY(nonmonotonic_runtime)
     RUNTIME_FAMILY(maybe_nonmonotonic_runtime)
